@@ -608,28 +608,24 @@ def gate345a874 (h : Handler V) (c : Cause V) : Bool :=
   !(h.kind.reason == none && !h.kind.initial && c.kind.marked)
 
 -- ---- stealth -------------------------------------------------------------------------------------
-/- The clause "objects matched by no handler are left untouched: no annotations, no finalizer", over
-   the model's cycle. Its `Effect` list enumerates what `process_resource_event` /
+/- FULL STATEMENT of the clause "objects matched by no handler are left untouched: no annotations, no
+   finalizer", over the model's cycle. Its `Effect` list enumerates what `process_resource_event` /
    `process_resource_causes` + `application.apply` can do to the object in one cycle: the re-sending of
-   a transformation carried in from `memory.remaining_patch`, on.event invocations, daemon spawning, the
-   purge of leftover progress records in the blind branch, the three `patch.fns.append` sites,
-   `process_changing_cause`, and the sleep-and-touch for a non-empty `delays`.
-   The theorems are proved for EVERY variant `v : Repairs` of the code that purges in the blind branch
-   (/repo 423b86f) -- in particular for /repo 02af7ce (`Repairs.rework`, = `cycle`: the code as it is) and for
-   423b86f as first committed, with 608a57d's head block (`Repairs.at608`): for an object that nothing matches
-   the two do the same.
-   READING of "left untouched" (restated after /repo 423b86f, from the property text): the framework
-   puts NOTHING of its own on such an object -- no annotation, no finalizer -- and calls nothing for it.
-   Taking its own leftovers OFF the object (the own finalizer; since 423b86f also the progress records of
-   the resource's handlers and of their sub-handlers, left by a handling that was open when the object
-   stopped matching) is what makes "no annotations, no finalizer" true: a REMOVAL (`Effect.isRemoval`)
-   conforms. An object that was never handled carries none of these and gets no request at all.
-   CAVEAT (finding C15-F9, `stealth_purge_by_name_witness`): "its own" is decided by handler id and
-   annotation prefix; a record that ANOTHER operator with the same ids wrote on an object of its share is
-   purged just the same -- for that set-up the reading above is too kind to the code, and the literal
-   clause ("left untouched") is what the two-operator oracle of the harness checks.
-       theorem stealth_full (nothing (pre)matches) : ∀ e ∈ cycle r cs o stopped, e.isRemoval = true
-   is FALSE of the code in two ways; `stealth_exact` says precisely what is done instead:
+   a transformation carried in from `memory.remaining_patch`, on.event invocations, daemon spawning, (in
+   the variants with /repo 423b86f only) the purge of leftover progress records in the blind branch, the
+   three `patch.fns.append` sites, `process_changing_cause`, and the sleep-and-touch for a non-empty `delays`:
+       theorem stealth_full (nothing (pre)matches) : cycle r cs o stopped = []
+   THE CODE AS IT IS (/repo ad4ec08, `Repairs.head`, = `cycle`): the operator is BLIND again to the objects
+   it does not match -- 423b86f's purge of leftover progress records in the blind branch is reverted,
+   because "its own" records were recognised by handler id and annotation prefix only, and one deployment
+   of an operator purged the records another deployment had just written on an object of ITS share
+   (finding C15-F9, fixed by ad4ec08; `stealth_purge_by_name_witness` is the regression theorem about the
+   variant `Repairs.rework` that had the purge). The theorems about the head are proved for EVERY variant
+   `v : Repairs` without the blind purge (`v.blindPurge = false`: the head, and the code before 423b86f);
+   `stealth_exact_at` covers every variant, with or without it.
+   `stealth_full` is FALSE of the code in three ways; `stealth_exact` says precisely what is done instead:
+     * `stealth_blocked_witness`: the own finalizer is still on the object → it is removed (this is
+       what the clause wants -- "no finalizer" --, a REMOVAL of an own mark: the code is right, no finding);
      * `stealth_carried_witness` (finding C15-F5, by design): a handler's transformation function of an
        earlier cycle, whose JSON-patch was rejected with HTTP 422, is re-sent although the object
        matches nothing any more (/repo 1c8f3dd keeps exactly the handlers' functions) -- if it still has
@@ -639,13 +635,19 @@ def gate345a874 (h : Handler V) (c : Cause V) : Bool :=
        still exiting (`match_daemons` returns its polling delay): the cycle sleeps and then writes
        the `touch-dummy` annotation to an object that matches nothing and has no finalizer — and
        nothing ever removes it. Replayed by corpus/C15/F6.json (real daemons, consecutive events).
-   (`stealth_blocked_witness`: a leftover own finalizer is removed -- a removal, what the clause wants.)
+   Outside these three NOTHING is done (`stealth_total_partial`: the empty effect list -- no request, no
+   call), whatever progress records lie on the object: the cycle does not even look at them
+   (`stealth_records_ignored`, `blind_never_purges`: unguarded). The price, by decision: the record of a
+   handler that was retrying when its object stopped matching STAYS on the object (finding C03-F2 is open
+   again: `stealth_leftover_regression`) -- "no annotations" is not made true for such an object; the
+   framework ADDS nothing to it.
    `Obj.lingering` / `Obj.carried` / `Obj.resumed` / `Obj.records` are residues of EARLIER cycles and inputs
    here (daemon life cycles are C09's, the carried patch C08's subject); what `process_changing_cause`
    leaves in the patch is C02's, so the touch is modelled for cycles without handling only. -/
 
-/-- which records the blind branch patches away: exactly the PRESENT ones that belong to a handler
-    of this resource, or are named as sub-handler records (`subrefs`) by such a present record -/
+/-- (about the variants WITH /repo 423b86f's blind purge; regression material since ad4ec08) which records
+    that purge patched away: exactly the PRESENT ones that belong to a handler of this resource, or are
+    named as sub-handler records (`subrefs`) by such a present record -- whoever wrote them (C15-F9) -/
 theorem purgeIds_iff (hs : List (Handler V)) (records : List (String × List String)) (i : String) :
     i ∈ purgeIds hs records ↔
       i ∈ records.map (·.1) ∧
@@ -659,7 +661,7 @@ theorem purgeIds_iff (hs : List (Handler V)) (records : List (String × List Str
     · exact ⟨hp, Or.inl ho⟩
     · exact ⟨hp, Or.inr ⟨rec, ⟨hr, by simpa using hown⟩, hi⟩⟩
 
-/-- only records that are ON the object are patched away (never an addition, never a blind `null`) -/
+/-- only records that are ON the object were patched away (never an addition, never a blind `null`) -/
 theorem purgeIds_present (hs : List (Handler V)) (records : List (String × List String)) :
     ∀ i ∈ purgeIds hs records, i ∈ records.map (·.1) :=
   fun i hi => ((purgeIds_iff hs records i).1 hi).1
@@ -667,53 +669,89 @@ theorem purgeIds_present (hs : List (Handler V)) (records : List (String × List
 /-- an object that carries no progress record (never handled, or handled to the end) -/
 theorem purgeIds_nil (hs : List (Handler V)) : purgeIds hs [] = [] := rfl
 
-/-- exactly what a cycle does to an object that no handler of any kind (pre)matches (NO guard; every
-    variant of the code with the blind purge) -/
-theorem stealth_exact_at (v : Repairs) (hv : v.blindPurge = true)
+/-- exactly what a cycle does to an object that no handler of any kind (pre)matches (NO guard; EVERY
+    variant of the code: `blindPurged v …` is `[]` without the blind purge, `purgeIds …` with it) -/
+theorem stealth_exact_at (v : Repairs)
     (r : Registry V) (cs : Causes V) (o : Obj) (stopped : List String)
     (hpre : prematchAny r.changing cs.changing = false)
     (hw : ∀ h ∈ r.watching, matchHandler h cs.watching = false)
     (hs : ∀ h ∈ r.spawning, matchHandler h cs.spawning = false) :
     cycleAt v r cs o stopped =
       (if o.carriedEff then [Effect.carried] else []) ++
-      purgeEffect (purgeIds r.changing o.records) ++
+      purgeEffect (blindPurged v r.changing o.records) ++
       (if o.blocked then [Effect.removeFinalizer] else []) ++
       (if !o.deletedEvent && o.ongoing && o.blocked && !(hasHandlers r.spawning && o.lingering)
         then [Effect.removeFinalizer] else []) ++
       (if !o.deletedEvent && (hasHandlers r.spawning && o.lingering) && !o.carriedEff &&
-          (purgeIds r.changing o.records).isEmpty && !o.blocked
+          (blindPurged v r.changing o.records).isEmpty && !o.blocked
         then [Effect.touch] else []) :=
-  cycle_unmatched v hv r cs o stopped hpre hw hs
+  cycle_unmatched v r cs o stopped hpre hw hs
 
-/-- … in particular the code the theorems are named after -/
+/-- … without the blind purge (the code as it is, and the code before 423b86f): NO purge term at all --
+    the re-sent carried transformation (C15-F5), the removal of the own finalizer, the touch (C15-F6) -/
+theorem stealth_exact_blind (v : Repairs) (hv : v.blindPurge = false)
+    (r : Registry V) (cs : Causes V) (o : Obj) (stopped : List String)
+    (hpre : prematchAny r.changing cs.changing = false)
+    (hw : ∀ h ∈ r.watching, matchHandler h cs.watching = false)
+    (hs : ∀ h ∈ r.spawning, matchHandler h cs.spawning = false) :
+    cycleAt v r cs o stopped =
+      (if o.carriedEff then [Effect.carried] else []) ++
+      (if o.blocked then [Effect.removeFinalizer] else []) ++
+      (if !o.deletedEvent && o.ongoing && o.blocked && !(hasHandlers r.spawning && o.lingering)
+        then [Effect.removeFinalizer] else []) ++
+      (if !o.deletedEvent && (hasHandlers r.spawning && o.lingering) && !o.carriedEff && !o.blocked
+        then [Effect.touch] else []) := by
+  rw [stealth_exact_at v r cs o stopped hpre hw hs]
+  simp [blindPurged, hv, purgeEffect]
+
+/-- … in particular the code the theorems are named after (/repo ad4ec08) -/
 theorem stealth_exact (r : Registry V) (cs : Causes V) (o : Obj) (stopped : List String)
     (hpre : prematchAny r.changing cs.changing = false)
     (hw : ∀ h ∈ r.watching, matchHandler h cs.watching = false)
     (hs : ∀ h ∈ r.spawning, matchHandler h cs.spawning = false) :
     cycle r cs o stopped =
       (if o.carriedEff then [Effect.carried] else []) ++
-      purgeEffect (purgeIds r.changing o.records) ++
       (if o.blocked then [Effect.removeFinalizer] else []) ++
       (if !o.deletedEvent && o.ongoing && o.blocked && !(hasHandlers r.spawning && o.lingering)
         then [Effect.removeFinalizer] else []) ++
-      (if !o.deletedEvent && (hasHandlers r.spawning && o.lingering) && !o.carriedEff &&
-          (purgeIds r.changing o.records).isEmpty && !o.blocked
+      (if !o.deletedEvent && (hasHandlers r.spawning && o.lingering) && !o.carriedEff && !o.blocked
         then [Effect.touch] else []) :=
-  stealth_exact_at Repairs.rework rfl r cs o stopped hpre hw hs
+  stealth_exact_blind Repairs.head rfl r cs o stopped hpre hw hs
 
-/-- THE CLAUSE, restated (see the reading above): to an object that nothing (pre)matches the cycle
-    does nothing but REMOVALS of the framework's own leftovers -- the own finalizer, the progress records
-    present on it -- unless a still-effective transformation is carried in (C15-F5, by design) or a
-    daemon of an earlier matched period is still exiting (C15-F6). The old guard "own finalizer absent"
-    is gone: its removal is a removal. -/
-theorem stealth_removals_only_partial (v : Repairs) (hv : v.blindPurge = true)
+/-- UNGUARDED, for every registry, cause and object -- matched or not: without the blind purge the cycle
+    itself never patches a progress record away (the purges of `process_changing_cause`, NOOP/FREE and the
+    end of a handling, are inside `Effect.handle`: C02's/C03's) -/
+theorem blind_never_purges (v : Repairs) (hv : v.blindPurge = false)
+    (r : Registry V) (cs : Causes V) (o : Obj) (stopped : List String) (is : List String) :
+    Effect.purge is ∉ cycleAt v r cs o stopped := by
+  intro he
+  have mem_opt : ∀ {c : Prop} [Decidable c] {x : Effect}, Effect.purge is ∈ (if c then [x] else []) → Effect.purge is = x := by
+    intro c _ x h; split at h <;> simp_all
+  simp only [cycleAt, cycleFull, finishCycle, hv, Bool.false_and, Bool.false_eq_true, if_false, purgeEffect,
+    List.isEmpty_nil, if_true, List.append_nil, List.mem_append] at he
+  rcases he with (((((h | h) | h) | (h | h)) | h) | (h | h)) <;> cases mem_opt h
+
+/-- UNGUARDED: without the blind purge the cycle does not even LOOK at the progress records on the
+    object outside the handling (`Obj.records` is read by nothing): records of this operator's handlers,
+    of their sub-handlers, of another deployment with the same ids (C15-F9) -- all the same to it -/
+theorem stealth_records_ignored (v : Repairs) (hv : v.blindPurge = false)
+    (r : Registry V) (cs : Causes V) (o : Obj) (stopped : List String) (recs : List (String × List String)) :
+    cycleAt v r cs { o with records := recs } stopped = cycleAt v r cs o stopped := by
+  simp [cycleAt, cycleFull, finishCycle, hv, patchNonEmpty, Obj.carriedEff]
+
+/-- THE CLAUSE in the lenient reading ("the framework puts nothing of its own on such an object; taking
+    its own marks OFF is what makes 'no annotations, no finalizer' true"), for EVERY variant: to an object
+    that nothing (pre)matches the cycle does nothing but REMOVALS -- unless a still-effective
+    transformation is carried in (C15-F5, by design) or a daemon of an earlier matched period is still
+    exiting (C15-F6) -/
+theorem stealth_removals_only_partial (v : Repairs)
     (r : Registry V) (cs : Causes V) (o : Obj) (stopped : List String)
     (hpre : prematchAny r.changing cs.changing = false)
     (hw : ∀ h ∈ r.watching, matchHandler h cs.watching = false)
     (hs : ∀ h ∈ r.spawning, matchHandler h cs.spawning = false)
     (hcar : o.carriedEff = false) (hlin : o.lingering = false) :
     ∀ e ∈ cycleAt v r cs o stopped, e.isRemoval = true := by
-  rw [stealth_exact_at v hv r cs o stopped hpre hw hs]
+  rw [stealth_exact_at v r cs o stopped hpre hw hs]
   intro e he
   simp only [hcar, hlin, Bool.and_false, Bool.false_and, Bool.false_eq_true, if_false, List.nil_append,
     List.append_nil, List.mem_append, purgeEffect] at he
@@ -728,69 +766,71 @@ theorem stealth_removals_only_partial (v : Repairs) (hv : v.blindPurge = true)
     · simp only [List.mem_singleton] at he; subst he; rfl
     · simp at he
 
-/-- the clause proper, under the exact guards -- own finalizer absent, nothing effective carried in, no
-    daemon of an earlier matched period still exiting: the ONLY thing the cycle does is to patch away
-    the progress records of the resource's handlers (and of their sub-handlers) that are present on
-    the object; see `purgeIds_iff` for which ones -/
-theorem stealth_total_partial (v : Repairs) (hv : v.blindPurge = true)
+/-- … and without the blind purge the only removal there is: the own finalizer (present on the object) -/
+theorem stealth_finalizer_only_partial (v : Repairs) (hv : v.blindPurge = false)
+    (r : Registry V) (cs : Causes V) (o : Obj) (stopped : List String)
+    (hpre : prematchAny r.changing cs.changing = false)
+    (hw : ∀ h ∈ r.watching, matchHandler h cs.watching = false)
+    (hs : ∀ h ∈ r.spawning, matchHandler h cs.spawning = false)
+    (hcar : o.carriedEff = false) (hlin : o.lingering = false) :
+    ∀ e ∈ cycleAt v r cs o stopped, e = Effect.removeFinalizer ∧ o.blocked = true := by
+  rw [stealth_exact_blind v hv r cs o stopped hpre hw hs]
+  intro e he
+  simp only [hcar, hlin, Bool.and_false, Bool.false_and, Bool.false_eq_true, if_false, List.nil_append,
+    List.append_nil, List.mem_append] at he
+  rcases he with he | he
+  · split at he
+    · rename_i hb; simp only [List.mem_singleton] at he; exact ⟨he, hb⟩
+    · simp at he
+  · split at he
+    · rename_i hb; simp only [List.mem_singleton] at he
+      simp only [Bool.and_eq_true] at hb; exact ⟨he, hb.1.2⟩
+    · simp at he
+
+/-- THE CLAUSE PROPER, in its strongest form, under the exact guards -- own finalizer absent, nothing
+    effective carried in, no daemon of an earlier matched period still exiting: the cycle does NOTHING to
+    an object that nothing (pre)matches -- no request, no purge, no call -- whatever records lie on it -/
+theorem stealth_total_partial (v : Repairs) (hv : v.blindPurge = false)
     (r : Registry V) (cs : Causes V) (o : Obj) (stopped : List String)
     (hpre : prematchAny r.changing cs.changing = false)
     (hw : ∀ h ∈ r.watching, matchHandler h cs.watching = false)
     (hs : ∀ h ∈ r.spawning, matchHandler h cs.spawning = false)
     (hfin : o.blocked = false) (hcar : o.carriedEff = false) (hlin : o.lingering = false) :
-    cycleAt v r cs o stopped = purgeEffect (purgeIds r.changing o.records) := by
-  rw [stealth_exact_at v hv r cs o stopped hpre hw hs]; simp [hfin, hcar, hlin]
-
-/-- … and an object that carries no progress record of these handlers (never handled; handled to the
-    end; records of other operators only) gets NOTHING: no request, no call -/
-theorem stealth_never_handled_partial (v : Repairs) (hv : v.blindPurge = true)
-    (r : Registry V) (cs : Causes V) (o : Obj) (stopped : List String)
-    (hpre : prematchAny r.changing cs.changing = false)
-    (hw : ∀ h ∈ r.watching, matchHandler h cs.watching = false)
-    (hs : ∀ h ∈ r.spawning, matchHandler h cs.spawning = false)
-    (hfin : o.blocked = false) (hcar : o.carriedEff = false) (hlin : o.lingering = false)
-    (hrec : purgeIds r.changing o.records = []) :
     cycleAt v r cs o stopped = [] := by
-  rw [stealth_total_partial v hv r cs o stopped hpre hw hs hfin hcar hlin, hrec]; rfl
+  rw [stealth_exact_blind v hv r cs o stopped hpre hw hs]; simp [hfin, hcar, hlin]
 
 /-- a carried transformation that is fulfilled already (no operation on the object at hand) is no write
     to an object that nothing matches, in any variant: forgotten beforehand (/repo 608a57d) or kept in the
     patch and evaluated to nothing when patching (the rework) -- the cycle is the cycle without it -/
-theorem carried_fulfilled_sends_nothing (v : Repairs) (hv : v.blindPurge = true)
+theorem carried_fulfilled_sends_nothing (v : Repairs)
     (r : Registry V) (cs : Causes V) (o : Obj) (stopped : List String)
     (hpre : prematchAny r.changing cs.changing = false)
     (hw : ∀ h ∈ r.watching, matchHandler h cs.watching = false)
     (hs : ∀ h ∈ r.spawning, matchHandler h cs.spawning = false)
     (h : o.carriedOps = false) :
     cycleAt v r cs o stopped = cycleAt v r cs { o with carried := false } stopped := by
-  rw [stealth_exact_at v hv r cs o stopped hpre hw hs, stealth_exact_at v hv r cs _ stopped hpre hw hs]
+  rw [stealth_exact_at v r cs o stopped hpre hw hs, stealth_exact_at v r cs _ stopped hpre hw hs]
   simp [Obj.carriedEff, h]
 
 /-- weaker hypotheses (on.event handlers and finalizer-free spawning may match): no changing
     handler prematches, no finalizer-requiring daemon/timer matches, own finalizer absent, nothing
-    effective carried in, nothing lingering ⇒ the only write the cycle queues on its own is the purge of
-    the leftover records (no finalizer change, no handling: hence no progress / diff-base annotations,
-    no re-sent transformation, no touch) -/
-theorem stealth_partial (v : Repairs) (hv : v.blindPurge = true)
+    effective carried in, nothing lingering ⇒ the cycle queues NO write of its own (no finalizer change, no
+    handling: hence no progress / diff-base annotations; no purge, no re-sent transformation, no touch) -/
+theorem stealth_partial (v : Repairs) (hv : v.blindPurge = false)
     (r : Registry V) (cs : Causes V) (o : Obj) (stopped : List String)
     (hpre : prematchAny r.changing cs.changing = false)
     (hsp : requiresFinalizerSpawning r.spawning cs.spawning stopped = false)
     (hfin : o.blocked = false) (hcar : o.carriedEff = false) (hlin : o.lingering = false) :
-    ∀ e ∈ cycleAt v r cs o stopped, e.isFrameworkWrite = true → e = Effect.purge (purgeIds r.changing o.records) := by
-  intro e he hwr
+    ∀ e ∈ cycleAt v r cs o stopped, e.isFrameworkWrite = false := by
+  intro e he
   have mem_opt : ∀ {c : Prop} [Decidable c] {x : Effect}, e ∈ (if c then [x] else []) → c ∧ e = x := by
     intro c _ x h; split at h <;> simp_all
-  simp only [cycleAt, cycleFull, finishCycle, List.mem_append] at he
-  rcases he with ((((((h | h) | h) | h) | (h | h)) | h) | (h | h))
+  simp only [cycleAt, cycleFull, finishCycle, hv, Bool.false_and, Bool.false_eq_true, if_false, purgeEffect,
+    List.isEmpty_nil, if_true, List.append_nil, List.mem_append] at he
+  rcases he with (((((h | h) | h) | (h | h)) | h) | (h | h))
   · obtain ⟨hc, _⟩ := mem_opt h; simp [hcar] at hc
-  · obtain ⟨_, rfl⟩ := mem_opt h; cases hwr
-  · obtain ⟨_, rfl⟩ := mem_opt h; cases hwr
-  · cases hC : hasHandlers r.changing
-    · simp [hC, blindCore, purgeEffect] at h
-    · simp only [hC, hv, hpre, blindCore, Bool.not_false, Bool.and_true, if_true, purgeEffect] at h
-      split at h
-      · simp at h
-      · simpa using h
+  · obtain ⟨_, rfl⟩ := mem_opt h; rfl
+  · obtain ⟨_, rfl⟩ := mem_opt h; rfl
   · obtain ⟨hc, _⟩ := mem_opt h
     simp [addingCore, mustBlockCore, blindCore, hpre, hsp] at hc
   · obtain ⟨hc, _⟩ := mem_opt h
@@ -1164,55 +1204,72 @@ example : cycle wR (wCs (some "v")) (wO true true) [] = [Effect.carried] ∧
     -- the handlers skipped for the sake of a re-patching that sends nothing, so no further event, and the
     matching handler `h` never invoked for that change. /repo 608a57d forgets it beforehand: `h` runs in
     this very cycle. The rework keeps it in the patch (it is re-evaluated on the freshest state when
-    patching) and comes back at once instead: the cycle ends with the touch, whose event runs `h`.
-    Replayed by corpus/C15/d21-carried-fulfilled-comes-back-at-once.json on /repo 02af7ce (the rework). -/
+    patching) and comes back at once instead: the cycle ends with the touch, whose event runs `h`; so does
+    the code as it is (ad4ec08 keeps 02af7ce).
+    Replayed by corpus/C15/d21-carried-fulfilled-comes-back-at-once.json on /repo ad4ec08. -/
 theorem carried_fulfilled_regression :
     cycleAt ⟨false, true, true, false⟩ wR (wCs (some "v")) (wO true true false [] false) [] = [] ∧
     cycleAt Repairs.at608 wR (wCs (some "v")) (wO true true false [] false) [] = [Effect.handle ["h"]] ∧
     cycleAt Repairs.rework wR (wCs (some "v")) (wO true true false [] false) [] = [Effect.touch] ∧
+    cycle wR (wCs (some "v")) (wO true true false [] false) [] = [Effect.touch] ∧
     -- an unmatched object is not written to in any of them (a no-op transformation sends nothing)
     cycleAt ⟨false, true, true, false⟩ wR (wCs none) (wO false true false [] false) [] = [] ∧
     cycleAt Repairs.at608 wR (wCs none) (wO false true false [] false) [] = [] ∧
-    cycleAt Repairs.rework wR (wCs none) (wO false true false [] false) [] = [] := by decide
+    cycleAt Repairs.rework wR (wCs none) (wO false true false [] false) [] = [] ∧
+    cycle wR (wCs none) (wO false true false [] false) [] = [] := by decide
 
-/-- REGRESSION of /repo 423b86f (finding C03-F2, seen from this property: "no annotations"): the object
-    stopped matching (label gone) while `h` and its sub-handler `h/s` were in progress; their records
-    are on the object, beside a record of somebody else (`zz`). The blind branch used to do nothing --
-    the framework's annotations stayed on an object that nothing matches; now it patches exactly the own
-    ones away and leaves the foreign one alone. Replayed by corpus/C15/d22-leftover-records-purged.json. -/
+/-- REGRESSION of /repo 423b86f AND of its revert ad4ec08 (finding C03-F2, seen from this property: "no
+    annotations"): the object stopped matching (label gone) while `h` and its sub-handler `h/s` were in
+    progress; their records are on the object, beside a record of somebody else (`zz`). Before 423b86f the
+    blind branch did nothing -- the framework's annotations stayed on an object that nothing matches; with
+    423b86f it patched exactly the "own" ones away (own BY NAME: finding C15-F9, next theorem); since ad4ec08
+    it does nothing again: C03-F2 is open again BY DECISION (a cosmetic leak, picked up only if the object
+    matches again, against two deployments chasing each other for ever). A leftover own finalizer is still
+    taken off. Replayed by corpus/C15/d22-leftover-records-stay.json on the real code. -/
 theorem stealth_leftover_regression :
     let recs := [("h", ["h/s"]), ("h/s", []), ("zz", ["zz/s"]), ("zz/s", [])]
     cycleAt ⟨true, false, true, false⟩ wR (wCs none) (wO false false false recs) [] = [] ∧
     cycleAt Repairs.at608 wR (wCs none) (wO false false false recs) [] = [Effect.purge ["h", "h/s"]] ∧
-    cycle wR (wCs none) (wO false false false recs) [] = [Effect.purge ["h", "h/s"]] ∧
-    -- a sub-handler record whose parent's record is gone is not recognised as one's own
-    cycle wR (wCs none) (wO false false false [("h/s", []), ("zz", [])]) [] = [] ∧
-    -- with a leftover own finalizer as well: both are taken off, nothing is put on
-    cycle wR (wCs none) (wO true false false recs) [] = [Effect.purge ["h", "h/s"], Effect.removeFinalizer] := by
+    cycleAt Repairs.rework wR (wCs none) (wO false false false recs) [] = [Effect.purge ["h", "h/s"]] ∧
+    -- the code as it is: blind again, the leftover stays
+    cycle wR (wCs none) (wO false false false recs) [] = [] ∧
+    -- (the purge: a sub-handler record whose parent's record is gone was not recognised as one's own)
+    cycleAt Repairs.rework wR (wCs none) (wO false false false [("h/s", []), ("zz", [])]) [] = [] ∧
+    -- with a leftover own finalizer as well: both were taken off; now the finalizer alone; nothing is put on
+    cycleAt Repairs.rework wR (wCs none) (wO true false false recs) [] =
+      [Effect.purge ["h", "h/s"], Effect.removeFinalizer] ∧
+    cycle wR (wCs none) (wO true false false recs) [] = [Effect.removeFinalizer] := by
   decide
 
-/-- C15-F9 (NEW with /repo 423b86f): "own" is decided BY NAME. The model's `Obj.records` does not say
-    who wrote a record, and neither can the code: an operator whose only handler `h` needs label lk purges
-    the record `h` from an object WITHOUT that label -- also when the record was written a moment ago by
-    another deployment of the same code that serves the objects without the label (same handler ids, same
-    prefix, other filters). So the removal is "of its own leftovers" only under the hypothesis that no
-    other operator uses the same ids on this object; without it the clause is violated literally (this
-    operator never matched the object and never put anything on it) and the two operators chase each other
-    for ever: replayed on the real code, two operators on one simulated cluster, by corpus/C15/F9.json. -/
+/-- REGRESSION of the repaired finding C15-F9 (introduced by /repo 423b86f, fixed by its revert ad4ec08):
+    "own" was decided BY NAME. The model's `Obj.records` does not say who wrote a record, and neither could
+    the code: an operator whose only handler `h` needs label lk purged the record `h` from an object
+    WITHOUT that label -- also when the record was written a moment ago by another deployment of the same
+    code that serves the objects without the label (same handler ids, same prefix, other filters). That
+    operator never matched the object and never put anything on it: the clause violated literally, and the
+    two operators chased each other for ever (replayed on the real code, two operators on one simulated
+    cluster, by corpus/C15/F9.json: it must PASS now). The code as it is does nothing to that object. -/
 theorem stealth_purge_by_name_witness :
     ∃ (r : Registry J) (cs : Causes J) (o : Obj), prematchAny r.changing cs.changing = false ∧
       (∀ h ∈ r.watching, matchHandler h cs.watching = false) ∧
       (∀ h ∈ r.spawning, matchHandler h cs.spawning = false) ∧
       o.blocked = false ∧ o.carriedEff = false ∧ o.lingering = false ∧
-      cycle r cs o [] = [Effect.purge ["h"]] ∧ (Effect.purge ["h"]).isFrameworkWrite = true :=
-  ⟨wR, wCs none, wO false false false [("h", [])], by decide, by simp [wR], by simp [wR], rfl, rfl, rfl, by decide, rfl⟩
+      cycleAt Repairs.rework r cs o [] = [Effect.purge ["h"]] ∧ (Effect.purge ["h"]).isFrameworkWrite = true ∧
+      cycleAt Repairs.at608 r cs o [] = [Effect.purge ["h"]] ∧
+      cycle r cs o [] = [] :=
+  ⟨wR, wCs none, wO false false false [("h", [])], by decide, by simp [wR], by simp [wR], rfl, rfl, rfl, by decide, rfl,
+    by decide, by decide⟩
 
--- non-vacuity of `stealth_removals_only_partial` / `stealth_total_partial` / `stealth_never_handled_partial` /
--- `purgeIds_iff`: the hypotheses hold for `wR`, the unlabelled object, with and without leftovers
+-- non-vacuity of `stealth_removals_only_partial` / `stealth_finalizer_only_partial` / `stealth_total_partial` /
+-- `stealth_records_ignored` / `blind_never_purges` / `purgeIds_iff`: the hypotheses hold for `wR`, the unlabelled
+-- object, with and without leftovers (and the head variant is one without the blind purge)
 example : (wO true false false [("h", [])]).carriedEff = false ∧ (wO true false false [("h", [])]).lingering = false ∧
-    (wO false true false [] false).carriedEff = false ∧
+    (wO false true false [] false).carriedEff = false ∧ Repairs.head.blindPurge = false ∧
     purgeIds wR.changing [("h", ["h/s"]), ("h/s", []), ("zz", [])] = ["h", "h/s"] ∧
-    purgeIds wR.changing [("zz", [])] = [] ∧ ownedIds wR.changing = ["h"] := by decide
+    purgeIds wR.changing [("zz", [])] = [] ∧ ownedIds wR.changing = ["h"] ∧
+    cycle wR (wCs none) (wO true false false [("h", [])]) [] = [Effect.removeFinalizer] ∧
+    -- `blind_never_purges` also where the object DOES match: the handling is `handle`, never `purge`
+    cycle wR (wCs (some "v")) (wO true false false [("h", [])]) [] = [Effect.handle ["h"]] := by decide
 
 def kex : Resource :=
   { group := "kopf.dev", version := "v1", plural := "kopfexamples", kind := some "KopfExample",
